@@ -559,4 +559,30 @@ example :
     (.step _ "second" (.list [.list [.str "first"]]) _ _ (List.mem_cons_self ..) rfl
       (.here _ (by intro kvs h; cases h)))
 
+/-- **Which flow a daughter gets** (`Store.divide`, after fix F57).  A daughter that gives a non-empty
+flow is generated with it; one that brings her own processes or steps and no flow is generated with
+the empty flow — her steps are legacy derivers, nothing of the mother's flow is reported for her
+(`procPaths root (.dict []) = []`); only a daughter that names neither processes nor steps inherits
+the mother's flow. -/
+theorem divide_flow_rule (dk : KVs) (m : Tree) :
+    (∀ fl, KV.lookup "flow" dk = some fl → fl.truthy = true → daughterFlow dk m = fl) ∧
+    ((KV.has "processes" dk || KV.has "steps" dk) = true →
+      (∀ fl, KV.lookup "flow" dk = some fl → fl.truthy = false) → daughterFlow dk m = .dict []) ∧
+    ((KV.has "processes" dk || KV.has "steps" dk) = false →
+      (∀ fl, KV.lookup "flow" dk = some fl → fl.truthy = false) →
+      daughterFlow dk m = (getFlow m).getD (.dict [])) := by
+  refine ⟨?_, ?_, ?_⟩
+  · intro fl h ht; simp [daughterFlow, h, ht]
+  · intro hown hf
+    cases hl : KV.lookup "flow" dk with
+    | none => simp [daughterFlow, hl, hown]
+    | some fl => simp [daughterFlow, hl, hf fl hl, hown]
+  · intro hown hf
+    cases hl : KV.lookup "flow" dk with
+    | none => simp [daughterFlow, hl, hown]
+    | some fl => simp [daughterFlow, hl, hf fl hl, hown]
+
+example : daughterFlow [("key", .str "m0"), ("processes", .dict [])]
+    (.node { flow := .dict [("S1", .list [])] } []) = .dict [] := by
+  simp [daughterFlow, KV.has, KV.lookup]
 end VivProps.C09
